@@ -26,6 +26,17 @@ the same numbers (other order of min/max, `x ** e`, renamed locals) is silent.
 
 A runtime scan (labelled as such; it is about libm, not a theorem) checks that
 the 4096 readings per sensor never increase with the code.
+
+The reading must depend on the pin voltage ONLY.  Every sample is therefore
+taken on a different state of the rest of the simulated roboRIO
+(`wpilib.simulation.RoboRioSim`: 5 V / 3.3 V / 6 V user rails, battery voltage,
+rail enable flags, currents, brownout threshold, CPU temperature -- nominal,
+sagging, 0 V, negative, tiny, huge, +-inf, switched off, random), the state is
+part of the generated lemma (`rio_reads .. (Build_rio <pin> <rails..>) <impl
+double>`, IR/Model.v) whose model side looks at the pin alone
+(C17_rio_reading / C17_rio_pin_only of Properties/C17.v), the full ADC sweep
+is repeated under several states and must be bit-identical, and the
+counter-example search returns the failing (roboRIO state, voltage) pair.
 """
 import ast
 import copy
@@ -58,6 +69,110 @@ VREF = 5.0
 ORACLE_TOL = 1e-9
 INF = float("inf")
 
+# ---------------------------------------------------------------------------
+# the rest of the simulated roboRIO ("env"): a tuple in the order of ENV_FIELDS
+# ---------------------------------------------------------------------------
+ENV_FIELDS = ("v5", "v3v3", "v6", "vin", "on5", "on3v3", "on6", "i5", "i3v3", "i6", "iin", "brownout", "cputemp")
+ENV_DOC = {"v5": "5 V user rail (RoboRioSim.setUserVoltage5V)", "v3v3": "3.3 V user rail", "v6": "6 V user rail",
+           "vin": "battery / input voltage (setVInVoltage)", "on5": "5 V rail enabled", "on3v3": "3.3 V rail enabled",
+           "on6": "6 V rail enabled", "i5": "5 V rail current", "i3v3": "3.3 V rail current", "i6": "6 V rail current",
+           "iin": "input current", "brownout": "brownout voltage", "cputemp": "CPU temperature"}
+NOMINAL = (5.0, 3.3, 6.0, 12.0, True, True, True, 0.0, 0.0, 0.0, 0.0, 6.75, 45.0)
+ENV_SETTERS = ("setUserVoltage5V", "setUserVoltage3V3", "setUserVoltage6V", "setVInVoltage", "setUserActive5V",
+               "setUserActive3V3", "setUserActive6V", "setUserCurrent5V", "setUserCurrent3V3", "setUserCurrent6V",
+               "setVInCurrent", "setBrownoutVoltage", "setCPUTemp")
+ENV_GETTERS = ("getVoltage5V", "getVoltage3V3", "getVoltage6V", "getInputVoltage", "getEnabled5V", "getEnabled3V3",
+               "getEnabled6V", "getCurrent5V", "getCurrent3V3", "getCurrent6V", "getInputCurrent", "getBrownoutVoltage",
+               "getCPUTemp")
+
+
+def env_with(**kw):
+    e = list(NOMINAL)
+    for k, x in kw.items():
+        e[ENV_FIELDS.index(k)] = x
+    return tuple(e)
+
+
+def same_val(a, b):
+    if isinstance(a, bool) or isinstance(b, bool):
+        return a is b
+    return a == b and math.copysign(1.0, a) == math.copysign(1.0, b)
+
+
+def env_diff(env):
+    """the fields that are not nominal, {field: value}"""
+    return {f: x for f, x, n in zip(ENV_FIELDS, env, NOMINAL) if not same_val(x, n)}
+
+
+def env_text(env):
+    d = env_diff(env)
+    if not d:
+        return "the roboRIO in its nominal state (rails 5 / 3.3 / 6 V, battery 12 V)"
+    return "the roboRIO with " + ", ".join("%s = %r" % (ENV_DOC[f].split(" (")[0], x) for f, x in d.items()) + \
+        " (everything else nominal)"
+
+
+def env_json(env):
+    return {f: (x if isinstance(x, bool) else fhex(float(x))) for f, x in env_diff(env).items()}
+
+
+def env_unjson(j):
+    kw = {}
+    for f, x in (j or {}).items():
+        if f in ENV_FIELDS:
+            kw[f] = x if isinstance(x, bool) else float(unhex(x))
+    return env_with(**kw)
+
+
+def edge_envs(extra=()):
+    """[(tag, env)]: nominal first, then ONE field off nominal at a time (simplest report first), then combinations"""
+    nx = math.nextafter
+    out = [("nominal", NOMINAL)]
+    out += [("corpus", e) for e in extra]
+    one = [("v5", [4.6, 4.9, 5.2, 4.75, 5.25, 2.5, 10.0, 0.0, -0.0, -1.0, nx(5.0, 9.0), nx(5.0, 0.0), 1e-5, 5e-324,
+                   1e308, INF, -INF]),
+           ("vin", [6.3, 7.0, 10.5, 13.2, 5.0, 0.0, -1.0, 1e308, INF, -INF]),
+           ("v3v3", [3.0, 3.6, 5.0, 0.0, -1.0, INF]),
+           ("v6", [5.5, 6.5, 5.0, 0.0, -1.0, INF]),
+           ("on5", [False]), ("on3v3", [False]), ("on6", [False]),
+           ("i5", [0.5, 2.0, INF]), ("i3v3", [0.5]), ("i6", [2.2]), ("iin", [40.0, 180.0]),
+           ("brownout", [6.25, 0.0, 13.0]), ("cputemp", [0.0, 85.0, -40.0])]
+    for f, vals in one:
+        out += [("one:" + f, env_with(**{f: x})) for x in vals]
+    out += [
+        ("combo", env_with(v5=0.0, on5=False)),                                     # 5 V rail faulted / switched off
+        ("combo", env_with(v5=0.0, v3v3=0.0, v6=0.0, on5=False, on3v3=False, on6=False)),
+        ("combo", env_with(vin=6.3, v6=0.0, on6=False, v5=4.6, v3v3=3.2, iin=120.0)),   # brownout stage 1
+        ("combo", env_with(vin=4.4, v6=0.0, on6=False, v5=0.0, on5=False, v3v3=0.0, on3v3=False)),
+        ("combo", env_with(v5=4.6, v3v3=3.0, v6=5.5, vin=10.5, i5=1.5, i3v3=0.8, i6=2.0, iin=90.0, cputemp=70.0)),
+        ("combo", env_with(v5=5.2, v3v3=3.4, v6=6.2, vin=13.5)),
+        ("combo", env_with(v5=INF, v3v3=INF, v6=INF, vin=INF)),
+        ("combo", env_with(v5=-INF, v3v3=-INF, v6=-INF, vin=-INF, on5=False)),
+        ("combo", env_with(v5=1.0, v3v3=1.0, v6=1.0, vin=1.0, brownout=1.0)),
+    ]
+    return out
+
+
+def random_env(r):
+    """every field off nominal most of the time; values on a 1/1024 grid (short literals)"""
+    def q(x):
+        return round(x * 1024) / 1024
+
+    def volt(nom):
+        k = r.random()
+        if k < 0.15:
+            return nom
+        if k < 0.70:
+            return q(nom * r.uniform(0.8, 1.1))
+        if k < 0.85:
+            return q(r.uniform(0.0, 15.0))
+        return r.choice([0.0, -0.0, -1.0, -12.0, 5e-324, 1e-5, 1.0, 1e308, INF, -INF])
+    return (volt(5.0), volt(3.3), volt(6.0), volt(12.0),
+            r.random() < 0.75, r.random() < 0.75, r.random() < 0.75,
+            q(r.uniform(0.0, 3.0)), q(r.uniform(0.0, 2.0)), q(r.uniform(0.0, 3.0)), q(r.uniform(0.0, 200.0)),
+            q(r.uniform(3.0, 9.0)), q(r.uniform(-20.0, 100.0)))
+
+
 HEADER = ("From Coq Require Import Reals Lra.\nFrom Interval Require Import Tactic.\n"
           "From RV Require Import IR.Model IR.Proofs.\nOpen Scope R_scope.\n")
 
@@ -74,7 +189,14 @@ class Rig:
             del sys.modules[m]
         self.simmod = importlib.import_module("robotpy_ext.common_drivers.distance_sensors_sim")
         self.mod = sys.modules["robotpy_ext.common_drivers.distance_sensors"]
-        from wpilib.simulation import AnalogInputSim
+        from wpilib.simulation import AnalogInputSim, RoboRioSim
+        import wpilib
+        self._set = [getattr(RoboRioSim, n) for n in ENV_SETTERS]
+        self._get = [getattr(wpilib.RobotController, n) for n in ENV_GETTERS]
+        self._battery = wpilib.RobotController.getBatteryVoltage
+        self._env = None
+        self.env_bad = []        # (env, what RobotController reported) where a setter was not read back
+        self.apply(NOMINAL, check=True)
         self.s = {}
         for port, S in enumerate(SENSORS):
             sensor = getattr(self.mod, S["cls"])(port)
@@ -82,9 +204,23 @@ class Rig:
             helper = getattr(self.simmod, S["sim"])(sensor)
             self.s[S["key"]] = (sensor, ain, helper)
 
-    def read(self, key, v):
-        """voltage v on the input -> (seen voltage, outcome)"""
+    def apply(self, env, check=False):
+        """put the rest of the simulated roboRIO in state env (a tuple in the order of ENV_FIELDS)"""
+        if env is self._env and not check:
+            return
+        for f, x in zip(self._set, env):
+            f(x)
+        self._env = env
+        if check:
+            got = [g() for g in self._get]
+            if not (all(type(a) is type(b) and same_val(a, b) for a, b in zip(got, env))
+                    and same_val(self._battery(), env[3])):
+                self.env_bad.append((env, got))
+
+    def read(self, key, v, env=NOMINAL):
+        """voltage v on the input, the roboRIO in state env -> (seen voltage, outcome)"""
         sensor, ain, _ = self.s[key]
+        self.apply(env)
         ain.setVoltage(v)
         seen = sensor.distance.getVoltage()
         try:
@@ -93,9 +229,11 @@ class Rig:
             return seen, ("exc", type(ex).__name__, str(ex)[:80])
         return seen, ("ok", x)
 
-    def set(self, key, d):
-        """helper.setDistance(d) -> (outcome of the call, helper.getDistance(), voltage, reading)"""
+    def set(self, key, d, env=NOMINAL):
+        """helper.setDistance(d), the roboRIO in state env ->
+        (outcome of the call, helper.getDistance(), voltage, reading)"""
         sensor, _, helper = self.s[key]
+        self.apply(env)
         try:
             helper.setDistance(d)
         except Exception as ex:  # noqa: BLE001
@@ -189,24 +327,42 @@ def oracle_distance(S, d, res):
     return None
 
 
-def v_violation(S, v, out, clause, text):
+def oracle_pin_only(S, v, o_nom, o_env):
+    """the reading is a function of the input voltage: the same voltage read on two states of the rest of the
+    roboRIO gives the same distance (both calls returned a finite number; anything else is another clause)"""
+    if o_nom[0] == "ok" and o_env[0] == "ok" and finite(o_nom[1]) and finite(o_env[1]):
+        a, b = o_nom[1], o_env[1]
+        if abs(a - b) > ORACLE_TOL * max(abs(a), abs(b)):
+            return "pin-only", "getDistance() = %r, but %r at the same voltage on the nominal roboRIO" % (b, a)
+    return None
+
+
+def _on(env):
+    """suffix of a report line: the state of the rest of the roboRIO, when it is not the nominal one"""
+    return "" if not env_diff(env) else " on " + env_text(env)
+
+
+def v_violation(S, v, out, clause, text, env=NOMINAL):
     return {"kind": "input", "mode": "voltage", "sensor": S["key"], "voltage": repr(v), "voltage_hex": fhex(v),
+            "env": env_json(env), "env_text": env_text(env),
             "clause": clause, "fingerprint": "C17:%s:%s" % (S["key"], clause),
-            "what": "%s at %r V: %s" % (S["cls"], v, text), "observed": repr(out)}
+            "what": "%s at %r V%s: %s" % (S["cls"], v, _on(env), text), "observed": repr(out)}
 
 
-def mono_violation(S, m):
+def mono_violation(S, m, env=NOMINAL):
     v1, x1, v2, x2 = m
     return {"kind": "input", "mode": "voltage-pair", "sensor": S["key"],
             "voltages": [repr(v1), repr(v2)], "voltages_hex": [fhex(v1), fhex(v2)],
+            "env": env_json(env), "env_text": env_text(env),
             "clause": "monotone", "fingerprint": "C17:%s:monotone" % S["key"],
-            "what": "%s: reading rises from %r cm at %r V to %r cm at %r V" % (S["cls"], x1, v1, x2, v2)}
+            "what": "%s%s: reading rises from %r cm at %r V to %r cm at %r V" % (S["cls"], _on(env), x1, v1, x2, v2)}
 
 
-def d_violation(S, d, res, clause, text):
+def d_violation(S, d, res, clause, text, env=NOMINAL):
     return {"kind": "input", "mode": "distance", "sensor": S["key"], "distance": repr(d), "distance_hex": fhex(d),
+            "env": env_json(env), "env_text": env_text(env),
             "clause": clause, "fingerprint": "C17:%s:%s" % (S["key"], clause),
-            "what": "%s: %s" % (S["sim"], text), "observed": repr(res)}
+            "what": "%s%s: %s" % (S["sim"], _on(env), text), "observed": repr(res)}
 
 
 # ---------------------------------------------------------------------------
@@ -216,9 +372,10 @@ def corpus_inputs():
     p = os.path.join(CORPUS, "C17", "edge_inputs.json")
     try:
         j = json.load(open(p))
-        return [unhex(x) for x in j["voltages"]], [unhex(x) for x in j["distances"]]
+        return ([unhex(x) for x in j["voltages"]], [unhex(x) for x in j["distances"]],
+                [env_unjson(e) for e in j.get("envs", [])])
     except (OSError, ValueError, KeyError):
-        return [], []
+        return [], [], []
 
 
 def special_voltages(S):
@@ -269,6 +426,28 @@ def voltage_samples(ctx, S, scan, extra):
             seen.add(k)
             res.append((tag, v))
     return res
+
+
+class EnvPicker:
+    """the state of the rest of the roboRIO for each sample: the special / boundary samples walk through the edge
+    states (one field off nominal at a time, then combinations), the others get a random state (every field off
+    nominal most of the time), every 6th the nominal one.  Own PRNG: the voltages / distances drawn from ctx.rng
+    are the same as without it."""
+
+    def __init__(self, seed, extra):
+        import random
+        self.r = random.Random("C17-env-%s" % (seed,))
+        self.edges = edge_envs(extra)
+        self.i = self.j = 0
+
+    def pick(self, tag):
+        if tag in ("special", "boundary-code"):
+            self.i += 1
+            return self.edges[self.i % len(self.edges)]
+        self.j += 1
+        if self.j % 6 == 0:
+            return "nominal", NOMINAL
+        return "random", random_env(self.r)
 
 
 def special_distances(S):
@@ -323,20 +502,39 @@ def zq(x):
 BOOL = "vm_compute; reflexivity"
 
 
-def reading_lemma(name, S, v, x):
-    """close ctol x (reading_K v): the implementation read x at voltage v.
+def xlit(x):
+    return "PInf" if x == INF else ("NInf" if x == -INF else "(Fin %s)" % lit(x))
+
+
+def rio_lit(v, env):
+    """the simulated roboRIO of one sample as a [rio] record of IR/Model.v (fields in the order of the Record)"""
+    e = dict(zip(ENV_FIELDS, env))
+    aux = " :: ".join(xlit(e[f]) for f in ("i5", "i3v3", "i6", "iin", "brownout", "cputemp")) + " :: nil"
+    b = {True: "true", False: "false"}
+    return "(Build_rio %s %s %s %s %s %s %s %s (%s))" % (
+        xlit(v), xlit(e["v5"]), xlit(e["v3v3"]), xlit(e["v6"]), xlit(e["vin"]),
+        b[e["on5"]], b[e["on3v3"]], b[e["on6"]], aux)
+
+
+def reading_lemma(name, S, v, x, env=NOMINAL):
+    """rio_reads .. <roboRIO with v on the pin and env on the rails> x: the implementation read x at voltage v
+    while the rest of the roboRIO was in state env; the model side (rio_distance_opt) looks at the pin only, so
+    the lemma reduces (K_rio_fin / K_rio_x) to  close ctol x (reading_K v).
     The rational side conditions (which clamp branch) are decided in Z by the
     q_* lemmas of IR/Proofs.v; the power-law premise goes to interval."""
     K = S["key"]
     adm = "_ _ _ _ _ %s_admissible" % K
+    par = "%s_c %s_e %s_lo %s_hi floor_volts" % (K, K, K, K)
     if v == INF:
-        return ("Lemma %s : %s = reading_x %s_c %s_e %s_lo %s_hi floor_volts PInf.\n"
-                "Proof. apply (corr_v_pinf %s); unfold %s_lo; lra. Qed.\n" % (name, lit(x), K, K, K, K, adm, K)), "v=+inf"
+        return ("Lemma %s : rio_distance_opt %s %s = Some %s.\n"
+                "Proof. apply (%s_rio_x _ PInf); [reflexivity | apply (corr_v_pinf %s); unfold %s_lo; lra]. Qed.\n"
+                % (name, par, rio_lit(v, env), lit(x), K, adm, K)), "v=+inf"
     if v == -INF:
-        return ("Lemma %s : %s = reading_x %s_c %s_e %s_lo %s_hi floor_volts NInf.\n"
-                "Proof. apply (corr_v_ninf %s _ %s_floor_reads_hi); unfold %s_hi; lra. Qed.\n"
-                % (name, lit(x), K, K, K, K, adm, K, K)), "v=-inf"
-    st = "Lemma %s : close ctol %s (reading_%s %s).\n" % (name, lit(x), K, lit(v))
+        return ("Lemma %s : rio_distance_opt %s %s = Some %s.\n"
+                "Proof. apply (%s_rio_x _ NInf); [reflexivity | "
+                "apply (corr_v_ninf %s _ %s_floor_reads_hi); unfold %s_hi; lra]. Qed.\n"
+                % (name, par, rio_lit(v, env), lit(x), K, adm, K, K)), "v=-inf"
+    st = "Lemma %s : rio_reads %s ctol %s %s.\n" % (name, par, rio_lit(v, env), lit(x))
     fv, fx = Fraction(v), Fraction(x)
     args = "%s %s" % (zq(v), zq(x))
     if fv <= FL:
@@ -351,7 +549,7 @@ def reading_lemma(name, S, v, x):
     else:
         pf = "apply (%s_q_mid %s); [%s | %s]" % (K, args, BOOL, iv("fr, close, ctol, %s_c, %s_e" % (K, K)))
         br = "mid"
-    return st + "Proof. " + pf + ". Qed.\n", br
+    return st + "Proof. apply (%s_rio_fin _ %s); [reflexivity | %s]. Qed.\n" % (K, lit(v), pf), br
 
 
 def volts_lemma(name, S, d, u):
@@ -681,6 +879,9 @@ def run(ctx):
         "compared with the real model to 1e-12 relative, NaN is outside the quantifier",
         "C17: wpilib AnalogInput simulation returns the voltage that was set (checked on every sample); the 12-bit "
         "0-5 V input is modelled as the 4096 voltages code*5/4096",
+        "C17: 'the rest of the roboRIO' is what wpilib.simulation.RoboRioSim can set and wpilib.RobotController reads "
+        "(user rail voltages / currents / enable flags, input voltage and current, brownout voltage, CPU temperature); "
+        "the model's getDistance (rio_distance_opt) reads the pin field of that record and nothing else",
         "C17: the generated per-sample lemmas are closed by `interval with (i_prec 80)` (coq-interval 4.6.1), which "
         "computes with Coq's primitive 63-bit integers: those lemmas (NOT the theorems of Properties/C17.v) depend on "
         "the Uint63/PrimInt63 axioms of the standard library in addition to the real-number axioms",
@@ -700,7 +901,7 @@ def run(ctx):
     def ob(name, ok, detail=""):
         pend.append((name, bool(ok), detail))
 
-    state = {"rig": None, "vobs": {}, "dobs": {}, "first_bad": []}
+    state = {"rig": None, "vobs": {}, "dobs": {}, "first_bad": [], "edges": edge_envs()}
 
     def body():
         try:
@@ -710,8 +911,11 @@ def run(ctx):
             return
         ob("impl:the three drivers and their helpers can be constructed", True)
         state["rig"] = rig
-        cv, cd = corpus_inputs()
+        cv, cd, ce = corpus_inputs()
         quick = ctx.tier != "thorough"
+        picker = EnvPicker(ctx.seed, ce)
+        state["edges"] = picker.edges
+        pin_bad, nscan_env = [], 0
         lemmas = []          # (name, text, description)
         sim_reading_every = 4   # reading lemma at the helper's voltage: every 4th distance (and all specials)
         passthrough_bad, vbad, dbad, gbad, mono_bad = [], [], [], [], []
@@ -724,15 +928,35 @@ def run(ctx):
             for code in range(NCODES):
                 seen, o = rig.read(K, code_volts(code))
                 scan[code] = o
-                state["vobs"][(K, code_volts(code))] = o
+                state["vobs"][(K, NOMINAL, code_volts(code))] = o
             okpairs = [(code_volts(c), o[1]) for c, o in scan.items() if o[0] == "ok" and finite(o[1])]
             m = oracle_monotone(okpairs)
             if m:
                 mono_bad.append((K, m))
+            # the same sweep on other states of the rest of the roboRIO must give the same outcomes, bit for bit
+            # (quick: every edge state on every 8th code and eight states on all codes; thorough: all on all)
+            full = [e for _, e in picker.edges[1:]] + [random_env(picker.r) for _ in range(2 if quick else 30)]
+            if quick:
+                thin, full = full, full[:1] + [e for t, e in picker.edges if t == "combo"][:5] + full[-2:]
+                for env in thin:
+                    for code in range(0, NCODES, 8):
+                        if rig.read(K, code_volts(code), env)[1] != scan[code]:
+                            pin_bad.append((K, env_diff(env), code, scan[code], rig.read(K, code_volts(code), env)[1]))
+                            break
+                    nscan_env += 1
+            for env in full:
+                for code in range(NCODES):
+                    if rig.read(K, code_volts(code), env)[1] != scan[code]:
+                        pin_bad.append((K, env_diff(env), code, scan[code], rig.read(K, code_volts(code), env)[1]))
+                        break
+                nscan_env += 1
             # voltage samples -> lemmas
             for tag, v in voltage_samples(ctx, S, scan, cv):
-                seen, o = rig.read(K, v)
-                state["vobs"][(K, v)] = o
+                etag, env = picker.pick(tag)
+                rig.apply(env, check=True)
+                seen, o = rig.read(K, v, env)
+                state["vobs"][(K, env, v)] = o
+                ctx.count("roboRIO-state:%s" % etag)
                 if not (seen == v and type(seen) is float):
                     passthrough_bad.append((K, v, seen))
                     continue
@@ -742,16 +966,19 @@ def run(ctx):
                     vbad.append((K, v, o))
                     continue
                 name = "r_%s_%d" % (K, nv)
-                txt, br = reading_lemma(name, S, v, o[1])
+                txt, br = reading_lemma(name, S, v, o[1], env)
                 ctx.count("%s:branch:%s" % (K, br))
-                lemmas.append((name, txt, "%s getDistance() at %r V = %r" % (K, v, o[1])))
-                if len(samples) < 3 and br == "mid":
-                    samples.append({"sensor": K, "voltage": v, "getDistance": o[1]})
+                lemmas.append((name, txt, "%s getDistance() at %r V = %r%s" % (K, v, o[1], _on(env))))
+                if len(samples) < 3 and br == "mid" and etag != "nominal":
+                    samples.append({"sensor": K, "voltage": v, "getDistance": o[1], "roboRIO": env_diff(env)})
             # distances through the helper -> lemmas
             n = (2000 if quick else 50000) // len(SENSORS)
             for tag, d in distance_samples(ctx, S, n, cd):
-                res = rig.set(K, d)
-                state["dobs"][(K, fhex(d), type(d).__name__)] = (d, res)
+                etag, env = picker.pick(tag)
+                rig.apply(env, check=True)
+                res = rig.set(K, d, env)
+                state["dobs"][(K, fhex(d), type(d).__name__, env)] = (d, res)
+                ctx.count("roboRIO-state:%s" % etag)
                 call, g, u, o = res
                 nd += 1
                 ctx.count("%s:distance:%s" % (K, tag))
@@ -763,16 +990,17 @@ def run(ctx):
                 base = "d_%s_%d" % (K, nd)
                 lemmas.append((base + "u", volts_lemma(base + "u", S, d, u), "%s setDistance(%r) -> %r V" % (K, d, u)))
                 if nd % sim_reading_every == 0 or tag == "special":
-                    txt, _ = reading_lemma(base + "r", S, u, o[1])
-                    lemmas.append((base + "r", txt,
-                                   "%s getDistance() at %r V = %r (after setDistance(%r))" % (K, u, o[1], d)))
+                    txt, _ = reading_lemma(base + "r", S, u, o[1], env)
+                    lemmas.append((base + "r", txt, "%s getDistance() at %r V = %r (after setDistance(%r))%s"
+                                   % (K, u, o[1], d, _on(env))))
                 lemmas.append((base + "c", clamp_lemma(base + "c", S, d, o[1]),
-                               "%s reads %r after setDistance(%r)" % (K, o[1], d)))
+                               "%s reads %r after setDistance(%r)%s" % (K, o[1], d, _on(env))))
                 if finite(d) and finite(g):
                     lemmas.append((base + "g", remembers_lemma(base + "g", S, d, g),
                                    "%s helper.getDistance() = %r after setDistance(%r)" % (K, g, d)))
-                if len(samples) < 5 and tag == "inside":
-                    samples.append({"sensor": K, "setDistance": d, "voltage": u, "getDistance": o[1]})
+                if len(samples) < 5 and tag == "inside" and etag != "nominal":
+                    samples.append({"sensor": K, "setDistance": d, "voltage": u, "getDistance": o[1],
+                                    "roboRIO": env_diff(env)})
         ob("impl:AnalogInputSim.setVoltage(v) -> AnalogInput.getVoltage() == v on every sample",
            not passthrough_bad, repr(passthrough_bad[:3]))
         ob("impl:getDistance() returns a finite number for every sampled voltage", not vbad, repr(vbad[:3]))
@@ -781,6 +1009,13 @@ def run(ctx):
         ob("impl:helper.getDistance() returns the d that was set", not gbad, repr(gbad[:3]))
         ob("runtime-scan:readings never increase over the 4096 ADC codes (about libm pow; not a theorem)",
            not mono_bad, repr(mono_bad[:3]))
+        rig.apply(NOMINAL)
+        ob("impl:every RoboRioSim setter (rails, battery, enable flags, currents, brownout, CPU temperature) is read "
+           "back unchanged through wpilib.RobotController on every roboRIO state used", not rig.env_bad,
+           repr(rig.env_bad[:2]))
+        ob("runtime-scan:getDistance() over the ADC codes is bit-identical on %d other states of the roboRIO (user "
+           "rails sagging / 0 V / negative / infinite / switched off, battery, currents ...): it depends on the pin "
+           "voltage only" % nscan_env, not pin_bad, repr(pin_bad[:3]))
         # ---- regenerated data: the literals as the two source files have them now ----
         vals, robs = regen_extract(REPO)
         for o in robs:
@@ -860,11 +1095,18 @@ def run(ctx):
                     "implementation and of the model), special doubles (0, -0.0, negatives, denormals, the floor and its "
                     "neighbours, > 5 V, huge, +-inf, the exact boundary voltages), random doubles; distances through the "
                     "helper: specials (0, negatives, ints, the limits and their neighbours, huge, +-inf) and random "
-                    "inside/below/above; non-trivial = voltage samples whose reading is strictly inside the range "
+                    "inside/below/above; every sample on its own state of the rest of the simulated roboRIO (RoboRioSim: "
+                    "5 V / 3.3 V / 6 V rails, battery, enable flags, currents, brownout voltage, CPU temperature; edge "
+                    "states for the special samples, random states otherwise, every 6th nominal), which is part of the "
+                    "lemma; non-trivial = voltage samples whose reading is strictly inside the range "
                     "(power-law branch) + distances strictly inside"
                     % ("every 16th code" if quick else "all 4096 codes"),
+            "roboRIO_states": {"edge_states": len(picker.edges), "full_or_thinned_ADC_sweeps_per_sensor": nscan_env // 3},
             "exhaustive": False,
-            "exhaustive_parts": ["runtime monotonicity scan: all 3*4096 codes"] +
+            "exhaustive_parts": ["runtime monotonicity scan: all 3*4096 codes",
+                                 "pin-only scan: all 3*4096 codes on %d roboRIO states%s"
+                                 % ((8, " (every 8th code on the other edge states)") if quick
+                                    else (nscan_env // 3, ""))] +
                                 ([] if quick else ["per-sample lemmas: all 3*4096 ADC codes"]),
             "samples": samples[:5],
             "tolerance": "1e-12 relative (ctol)",
@@ -888,7 +1130,10 @@ def run(ctx):
 
 # ---------------------------------------------------------------------------
 def search_violations(ctx, state):
-    """A concrete voltage / distance on which the PROPERTY fails on the implementation."""
+    """A concrete (roboRIO state, voltage) / (roboRIO state, distance) on which the PROPERTY fails on the
+    implementation.  Preference: the clause (exception first), then the simplest state of the rest of the roboRIO
+    (nominal, then one field off nominal, in the order of edge_envs), then ADC codes / round voltages / small
+    integer distances."""
     rig = state["rig"]
     if rig is None:
         try:
@@ -897,48 +1142,117 @@ def search_violations(ctx, state):
             return []
     found = []
     order = {"exception": 0, "sim-exception": 0, "finite": 1, "range": 2, "sim-remembers": 3,
-             "power-law": 4, "sim-inverse": 5, "monotone": 6}
+             "power-law": 4, "sim-inverse": 5, "pin-only": 6, "monotone": 7}
     r = ctx.rng
+    edges = [e for _, e in state.get("edges") or edge_envs()]
+    if not edges or edges[0] is not NOMINAL:
+        edges = [NOMINAL] + edges
+    rank = {}
+    for k, e in enumerate(edges):
+        rank.setdefault(e, k)
+    extra_envs = [random_env(r) for _ in range(24)]
+
+    def erank(env):
+        return (len(env_diff(env)), rank.get(env, len(edges)))
+
+    def shrink(env, fails):
+        """put the fields back to nominal one at a time while the same clause still fails"""
+        for f in list(env_diff(env)):
+            cand = list(env)
+            cand[ENV_FIELDS.index(f)] = NOMINAL[ENV_FIELDS.index(f)]
+            cand = tuple(cand)
+            if fails(cand):
+                env = cand
+        return env
+
     for S in SENSORS:
         K = S["key"]
-        # 1. everything already observed in this run (includes the disagreeing samples),
-        # 2. all 4096 codes, the specials, a bigger random batch
-        vs = [v for (k, v) in state["vobs"] if k == K]
-        vs += [code_volts(c) for c in range(NCODES)] + special_voltages(S)
-        vs += [r.uniform(0.0, VREF) for _ in range(20000)] + [10.0 ** r.uniform(-12, 6) for _ in range(5000)]
-        pairs, per = [], []
-        seen = set()
-        for v in vs:
-            if fhex(v) in seen:
+        # ---- voltages: 1. everything already observed in this run (includes the disagreeing samples), with its
+        # roboRIO state; 2. nominal state: all 4096 codes, the specials, a bigger random batch; 3. every edge state
+        # and some random states: every 4th code and the specials
+        base = [code_volts(c) for c in range(NCODES)] + special_voltages(S)
+        work = [(env, v) for (k, env, v) in state["vobs"] if k == K]
+        work += [(NOMINAL, v) for v in base]
+        work += [(NOMINAL, r.uniform(0.0, VREF)) for _ in range(20000)]
+        work += [(NOMINAL, 10.0 ** r.uniform(-12, 6)) for _ in range(5000)]
+        thin = [code_volts(c) for c in range(0, NCODES, 4)] + special_voltages(S)
+        for env in edges[1:] + extra_envs:
+            work += [(env, v) for v in thin]
+        nominal, per, pairs, seen = {}, [], {}, set()
+        for env, v in work:
+            key = (env, fhex(v))
+            if key in seen:
                 continue
-            seen.add(fhex(v))
-            _, o = rig.read(K, v)
+            seen.add(key)
+            _, o = rig.read(K, v, env)
+            bad = oracle_voltage(S, v, o)
+            if not bad and env_diff(env):
+                if fhex(v) not in nominal:
+                    nominal[fhex(v)] = rig.read(K, v, NOMINAL)[1]
+                bad = oracle_pin_only(S, v, nominal[fhex(v)], o)
+            elif not env_diff(env):
+                nominal[fhex(v)] = o
+            if bad:
+                # prefer a simple roboRIO state, ADC codes, then round voltages (1 V, 2.5 V ...), then the nearest to 1 V
+                per.append((order[bad[0]], erank(env), not _is_code(v), not _is_round(v), abs(v - 1.0), env, v, bad[0]))
+            if o[0] == "ok" and finite(o[1]):
+                pairs.setdefault(env, []).append((v, o[1]))
+        if per:
+            per.sort(key=lambda t: t[:5])
+            _, _, _, _, _, env, v, clause = per[0]
+
+            def fails(e, v=v, clause=clause):
+                o = rig.read(K, v, e)[1]
+                b = oracle_voltage(S, v, o) or (oracle_pin_only(S, v, rig.read(K, v, NOMINAL)[1], o)
+                                                if env_diff(e) else None)
+                return bool(b) and b[0] == clause
+            env = shrink(env, fails)
+            o = rig.read(K, v, env)[1]
             bad = oracle_voltage(S, v, o)
             if bad:
-                # prefer ADC codes, then round voltages (1 V, 2.5 V ...), then the nearest to 1 V
-                per.append((order[bad[0]], not _is_code(v), not _is_round(v),
-                            abs(v - 1.0), v_violation(S, v, o, *bad)))
-            if o[0] == "ok" and finite(o[1]):
-                pairs.append((v, o[1]))
-        if per:
-            per.sort(key=lambda t: t[:4])
-            found.append((per[0][0], per[0][4]))
-        m = oracle_monotone([p for p in pairs if _is_code(p[0])]) or oracle_monotone(pairs)
-        if m:
-            found.append((order["monotone"], mono_violation(S, m)))
-        ds = [d for (k, _, _), (d, _) in state["dobs"].items() if k == K]
-        ds += special_distances(S) + list(range(-5, int(2 * S["fhi"])))
-        ds += [r.uniform(-S["flo"], 3 * S["fhi"]) for _ in range(20000)]
+                found.append((order[bad[0]], v_violation(S, v, o, bad[0], bad[1], env)))
+            else:
+                o0 = rig.read(K, v, NOMINAL)[1]
+                bad = oracle_pin_only(S, v, o0, o)
+                if bad:
+                    viol = v_violation(S, v, o, bad[0], bad[1], env)
+                    viol["observed_nominal"] = repr(o0)
+                    found.append((order[bad[0]], viol))
+        # monotone: within one state of the roboRIO (ADC codes first)
+        for env in sorted(pairs, key=erank):
+            m = oracle_monotone([p for p in pairs[env] if _is_code(p[0])]) or oracle_monotone(pairs[env])
+            if m:
+                found.append((order["monotone"], mono_violation(S, m, env)))
+                break
+        # ---- distances through the helper, the same three stages
+        ints = list(range(-5, int(2 * S["fhi"])))
+        dwork = [(env, d) for (k, _, _, env), (d, _) in state["dobs"].items() if k == K]
+        dwork += [(NOMINAL, d) for d in special_distances(S) + ints]
+        dwork += [(NOMINAL, r.uniform(-S["flo"], 3 * S["fhi"])) for _ in range(20000)]
+        for env in edges[1:] + extra_envs:
+            dwork += [(env, d) for d in special_distances(S) + ints[::7]]
         perd = []
-        for d in ds:
-            res = rig.set(K, d)
+        for env, d in dwork:
+            res = rig.set(K, d, env)
             bad = oracle_distance(S, d, res)
             if bad:
                 nice = not (isinstance(d, int) or (finite(d) and float(d).is_integer()))
-                perd.append((order[bad[0]], nice, abs(d) if finite(d) else 1e999, d_violation(S, d, res, *bad)))
+                # an in-range distance shows more than one that is clamped anyway
+                inside = not (finite(d) and S["flo"] < d < S["fhi"])
+                perd.append((order[bad[0]], erank(env), nice, inside, abs(d) if finite(d) else 1e999, env, d, bad[0]))
         if perd:
-            perd.sort(key=lambda t: t[:3])
-            found.append((perd[0][0], perd[0][3]))
+            perd.sort(key=lambda t: t[:5])
+            _, _, _, _, _, env, d, clause = perd[0]
+
+            def dfails(e, d=d, clause=clause):
+                b = oracle_distance(S, d, rig.set(K, d, e))
+                return bool(b) and b[0] == clause
+            env = shrink(env, dfails)
+            res = rig.set(K, d, env)
+            bad = oracle_distance(S, d, res)
+            if bad:
+                found.append((order[bad[0]], d_violation(S, d, res, bad[0], bad[1], env)))
+    rig.apply(NOMINAL)
     found.sort(key=lambda t: t[0])
     return [f for _, f in found]
 
@@ -960,25 +1274,37 @@ def replay(ctx, obj):
     rig = Rig()
     S = BY_KEY[obj["sensor"]]
     K = S["key"]
+    env = env_unjson(obj.get("env"))          # replay files written before the roboRIO state existed: nominal
+    rig.apply(env, check=True)
+    print("rest of the simulated roboRIO (wpilib.simulation.RoboRioSim): %s" % env_text(env)[4:])
+    for f, x in env_diff(env).items():
+        print("  RoboRioSim.%s(%r)   # %s" % (ENV_SETTERS[ENV_FIELDS.index(f)], x, ENV_DOC[f]))
+    if rig.env_bad:
+        print("  (RobotController does not report this state back: %r)" % (rig.env_bad[:1],))
     bad = None
     if obj["mode"] == "voltage":
         v = unhex(obj["voltage_hex"])
-        seen, o = rig.read(K, v)
+        seen, o = rig.read(K, v, env)
         print("%s: AnalogInputSim.setVoltage(%r); getVoltage() = %r; getDistance() -> %r" % (S["cls"], v, seen, o))
         bad = oracle_voltage(S, v, o)
+        if not bad and env_diff(env):
+            o0 = rig.read(K, v, NOMINAL)[1]
+            print("%s: the same voltage on the nominal roboRIO: getDistance() -> %r" % (S["cls"], o0))
+            bad = oracle_pin_only(S, v, o0, o)
     elif obj["mode"] == "voltage-pair":
         v1, v2 = [unhex(h) for h in obj["voltages_hex"]]
-        o1, o2 = rig.read(K, v1)[1], rig.read(K, v2)[1]
+        o1, o2 = rig.read(K, v1, env)[1], rig.read(K, v2, env)[1]
         print("%s: getDistance() at %r V -> %r ; at %r V -> %r" % (S["cls"], v1, o1, v2, o2))
         bad = oracle_voltage(S, v1, o1) or oracle_voltage(S, v2, o2)
         if not bad and oracle_monotone([(v1, o1[1]), (v2, o2[1])]):
             bad = ("monotone", "the reading increases with the voltage")
     elif obj["mode"] == "distance":
         d = unhex(obj["distance_hex"])
-        res = rig.set(K, d)
+        res = rig.set(K, d, env)
         print("%s: setDistance(%r) -> call %r, helper.getDistance() = %r, voltage = %r, sensor.getDistance() -> %r"
               % ((S["sim"], d) + tuple(res)))
         bad = oracle_distance(S, d, res)
+    rig.apply(NOMINAL)
     if bad:
         print("clause %s fails: %s" % bad)
         print("VIOLATION property=C17 replay=(replayed)")
